@@ -27,12 +27,19 @@ NOTES = {
  "C15-w4m2": "missed at first: every target booking shared at least the commodity with the training data. Added bookings with unseen words, commodity, amount and counter-account; then caught (placeholder-kept-despite-candidates).",
  "C16-w4m2": "missed at first: every generated account segment started with a capital letter. Added lower-case segments; then caught (posting-to-unopened-account).",
  "C20-w4m1": "missed at first: no holding ever went to exactly zero on a day of its own. The weights sub-check now drains the valuation commodity's holdings one booking per day and reports well past it; then caught (wrong-weight).",
+ "C05-w5m1": "missed at first: every generated file ended with a line break and had its includes at the top, so a file never ended inside an include directive. Layouts now also put includes last and drop the final newline; then caught by C05 (verdict/balance depend on layout) and C19 (census).",
+ "C05-w5m2": "missed at first: include trees had at most 9 files, the change deadlocks only with 8 files in flight that each wait to start an include. Added WideLayout (root with 8-14 children that each include 1-2 files) to C05 and C19; then caught (deadlock).",
+ "C06-w5m2": "missed at first: universe files never listed a commodity twice. The weights-ties workload now does at some rate; then caught (different tables between runs).",
+ "C14-w5m2": "missed at first: no workload passed --cpuprofile, and runtime/pprof could not run inside a bubble. pprof.StartCPUProfile/StopCPUProfile are now stubbed by the instrumenter, and the flags sub-check has must-fail argv variants (missing journal, with and without --cpuprofile); then caught (error-swallowed).",
 }
 DROPPED = [
  "C04 (wave 2, second change): Builder.Build skips the day sort; the same idea as C05-m2 and no longer applicable after fix 281999b.",
  "C06 (wave 3, first change): lost re-check in commodity.Registry.Get; the same change as C05-m1.",
  "C04 (wave 4, second change): lost re-check in commodity.Registry.Get; the same change as C05-m1.",
  "C16 (wave 4, first change): Builder.Build skips the day sort; the same change as C05-m2.",
+ "C03 (wave 5, second change): Normalize marks commodities settled at dequeue; the same change as C12-m1.",
+ "C06 (wave 5, first change): append(includedBy, file) in parseRec; the same change as C19-m2.",
+ "C02 (wave 5, second change): Totals summed over leaf nodes only; the same idea as C01-m2.",
 ]
 
 rows = []
